@@ -60,7 +60,7 @@ def run(tier):
                        'BR_SSL_CLOSED alone when closed and sets each of the four flags iff the matching *_buf call returns non-NULL; every *_buf '
                        'returns NULL once failed; the application-data gates of sendapp/recvapp; the half-duplex (shared buffer) mode switch is '
                        'the first effect of recvrec_ack and sendpld_ack on every path; br_ssl_engine_close releases unread application data before it '
-                       'enters the closure handshake (afterwards the record could never be released and no operation would be offered); br_ssl_engine_set_buffer splits a bidirectional buffer into adjacent, disjoint input and output areas ending at the end of the caller's buffer; the transition table of the I/O machine (sa/engio.py, shared with C01: empty records return to ready, consumed windows are recycled, full windows are flushed, sent records open a new one). NOT decided: the pointer/length arithmetic of the six '
+                       'enters the closure handshake (afterwards the record could never be released and no operation would be offered); br_ssl_engine_set_buffer splits a bidirectional buffer into adjacent, disjoint input and output areas ending at the end of the caller buffer; the transition table of the I/O machine (sa/engio.py, shared with C01: empty records return to ready, consumed windows are recycled, full windows are flushed, sent records open a new one). NOT decided: the pointer/length arithmetic of the six '
                        'buffer registers (run-time invariants).',
                        trusted=['clang/opt 14', 'debug-info struct layouts', 'whole-program store scan'])
     u = build.load_unit(S)
